@@ -12,3 +12,5 @@ pub mod stubs;
 pub mod tracing_stubs;
 #[cfg(kani)]
 mod c17_probe;
+#[cfg(kani)]
+mod c17_history;
